@@ -14,6 +14,16 @@ theorem write_passes_attribute_verbatim (c : Ctx) (a : FmtAttr) (fields : Fields
   unfold fmtBody transparentCallOnFields
   simp [h]
 
+/-- An attribute's literal is never written raw: the body is either `write!` with the very literal
+(so `{{` / `}}` are un-escaped by `format_args!`, also when the literal has no placeholder at all) or
+the transparent delegation — nothing else, in particular no `write_str` of the literal's text. -/
+theorem attribute_body_is_write_or_delegate (c : Ctx) (a : FmtAttr) (fields : FieldsD) :
+    (∃ ds, fmtBody c a fields = .write a ds) ∨ (∃ tr e, fmtBody c a fields = .delegate tr e) := by
+  unfold fmtBody
+  cases transparentCallOnFields c.cc a fields.idents with
+  | none => exact Or.inl ⟨_, rfl⟩
+  | some p => exact Or.inr ⟨p.2, p.1, rfl⟩
+
 /-- The only extra arguments are `f = *f` for exactly the fields that the literal names under
 `Pointer` and that the user did not alias. -/
 theorem deref_args_iff (cc : CharClasses) (a : FmtAttr) (fields : List (Option Name)) (f : Name) :
